@@ -240,7 +240,9 @@ def gen_defs_rebind(rng, k, max_inputs=4):
     """a definition list with what `gen_defs` leaves out: names bound twice, an INPUT that is re-bound, the same
     expression (structurally) before and after a re-binding and in several definitions (cache hits), names that
     merely start with `_ret`, a return bit that is a bare name / a constant / equal to another return bit,
-    definitions nobody reads, return bits defined before the last intermediate"""
+    definitions nobody reads, return bits defined before the last intermediate.  Like the front end, no definition
+    reads its own target except in the guarded form of an `if` statement (`t = ITE(g, e, t)`); a re-binding
+    that reads the old value goes through the temporary `__<name>`."""
     n = rng.randint(2, max_inputs)
     inputs = [f"v{i}" for i in range(n)]
     names = list(inputs)
@@ -277,7 +279,19 @@ def gen_defs_rebind(rng, k, max_inputs=4):
             nm = f"__m{i}"
         else:
             nm = f"m{i}"
-        defs.append([nm, expr(rng.randint(1, 3))])
+        e = expr(rng.randint(1, 3))
+        if reads(e, nm):
+            # the front end never hands over a definition that reads its own target: visit_Assign / visit_AugAssign
+            # go through the temporary `__<name>`, visit_If builds the guarded form `t = ITE(g, e, t)`
+            if rng.random() < 0.3 and len(names) > 1:
+                g = rng.choice([x for x in names if x != nm])
+                clean = subst_sym(e, nm, rng.choice([x for x in names if x != nm]))
+                defs.append([nm, ["ite", ["sym", g], clean, ["sym", nm]]])
+            else:
+                defs.append(["__" + nm, e])
+                defs.append([nm, ["sym", "__" + nm]])
+        else:
+            defs.append([nm, e])
         if nm not in names:
             names.append(nm)
         if pending and rng.random() < 0.3:
@@ -285,6 +299,18 @@ def gen_defs_rebind(rng, k, max_inputs=4):
     for r_ in pending:
         defs.append([r_, ret_expr(rng, names, expr)])
     return dict(name=f"defsr_{k}", inputs=inputs, defs=defs, rets=rets)
+
+
+def reads(e, nm):
+    if e[0] == "sym":
+        return e[1] == nm
+    return any(reads(x, nm) for x in e[1:] if isinstance(x, list))
+
+
+def subst_sym(e, nm, other):
+    if e[0] == "sym":
+        return ["sym", other] if e[1] == nm else e
+    return [e[0]] + [subst_sym(x, nm, other) if isinstance(x, list) else x for x in e[1:]]
 
 
 def ret_expr(rng, names, expr):
